@@ -220,6 +220,70 @@ class Body:
                     dq.append(s)
         return seen
 
+    def reach_ps(self, start, avoid_blocks=()):
+        """Blocks reachable from `start` over normal edges with a little path sensitivity: the variant (Ok/Err, Continue/Break) of
+        Result / ControlFlow values built on the path is tracked through moves, `Try::branch` and `discriminant`, and a switch on a known
+        variant follows only the matching arm.  (Needed once a Result-returning helper is inlined: its `return Err(..)` and `Ok(())`
+        meet in one block before the caller's `?`.)"""
+        avoid = set(avoid_blocks)
+        ZERO, ONE = ("Ok", "Continue", "None"), ("Err", "Break", "Some")
+        seen = set()
+        out = set()
+        todo = [(start, ())]
+        while todo:
+            bi, st = todo.pop()
+            if (bi, st) in seen or bi in avoid:
+                continue
+            seen.add((bi, st))
+            out.add(bi)
+            tags = dict(st)
+            bb = self.blocks[bi]
+            for s_ in bb["stmts"]:
+                if s_["k"] != "assign":
+                    continue
+                pl, rv = s_["pl"], s_["rv"]
+                if pl["p"]:
+                    continue
+                l = pl["l"]
+                if rv["k"] == "agg" and rv.get("agg") == "adt" and rv.get("variant") in ZERO + ONE and (rv["adt"].endswith("result::Result") or rv["adt"].endswith("ControlFlow") or rv["adt"].endswith("option::Option")):
+                    tags[l] = rv["variant"]
+                elif rv["k"] == "use" and rv["ops"][0].get("k") in ("copy", "move") and not rv["ops"][0]["pl"]["p"] and rv["ops"][0]["pl"]["l"] in tags:
+                    tags[l] = tags[rv["ops"][0]["pl"]["l"]]
+                elif rv["k"] == "discr" and not rv["pl"]["p"] and isinstance(tags.get(rv["pl"]["l"]), str):
+                    tags[l] = ("discr", tags[rv["pl"]["l"]])
+                else:
+                    tags.pop(l, None)
+            t = bb["term"]
+            succs = self.succs(bi)
+            if t["k"] == "call" and not t["dest"]["p"]:
+                d = t["dest"]["l"]
+                nm = t.get("callee", "")
+                a0 = t["args"][0] if t.get("args") else None
+                at = tags.get(a0["pl"]["l"]) if a0 and a0.get("k") in ("copy", "move") and not a0["pl"]["p"] else None
+                if nm.endswith("Try::branch") and at in ("Ok", "Err", "Some", "None"):
+                    tags[d] = "Continue" if at in ("Ok", "Some") else "Break"
+                elif nm.endswith("FromResidual::from_residual"):
+                    tags[d] = "Err"
+                else:
+                    tags.pop(d, None)
+            elif t["k"] == "switch":
+                dop = t["discr"]
+                dt = tags.get(dop["pl"]["l"]) if dop.get("k") in ("copy", "move") and not dop["pl"]["p"] else None
+                if isinstance(dt, tuple) and dt[0] == "discr":
+                    want = 0 if dt[1] in ZERO else 1
+                    hit = [a[1] for a in t["arms"] if int(a[0]) == want]
+                    succs = hit if hit else [t["otherwise"]]
+            nst = tuple(sorted(tags.items(), key=lambda kv: kv[0]))
+            for s2 in succs:
+                if s2 in self._normal_blocks():
+                    todo.append((s2, nst))
+        return out
+
+    def _normal_blocks(self):
+        if getattr(self, "_nb", None) is None:
+            self._nb = {i for i, b in enumerate(self.blocks) if not b.get("cleanup")}
+        return self._nb
+
     def reachable_blocks(self):
         return self.reachable_from(0)
 
@@ -377,7 +441,7 @@ class Body:
         if src in through:
             return True
         targets = set(dst_set) if dst_set is not None else set(self.exits())
-        reach = self.reachable_from(src, avoid=through)
+        reach = self.reach_ps(src, avoid_blocks=through)   # infeasible Ok/Err combinations are pruned (see reach_ps)
         return not (reach & targets)
 
     # ---------------------------------------------------------------- definitions
@@ -807,6 +871,9 @@ class Facts:
     def __init__(self, raw):
         self.raw = raw
         self.crate = raw["crate"]
+        # helpers that did not exist on the pinned tree are inlined into their callers (see inline.py)
+        from . import inline
+        self.inlined = inline.inline_new_helpers(raw)
         self.features = raw.get("features", [])
         self.bodies = {}
         self.order = []
